@@ -29,6 +29,7 @@ import (
 	"os"
 	"os/exec"
 	"path/filepath"
+	"runtime"
 	"sort"
 	"strconv"
 	"strings"
@@ -66,16 +67,6 @@ func batchMemKB() int {
 		return v
 	}
 	return 2359296 // 2.25 GiB: the Go runtime of this binary needs 1.6 GiB of address space before the first case
-}
-
-// goMemLimitKB: soft limit of the collector for a child under the given cap - 80 % of what the
-// cap leaves after the 1.6 GiB of address space that the runtime reserves at start.
-func goMemLimitKB(capKB int) int {
-	l := (capKB - 1677721) / 5 * 4
-	if l < 262144 {
-		l = 262144
-	}
-	return l
 }
 
 func TestCheck(t *testing.T) {
@@ -341,6 +332,9 @@ func childBatch() {
 		o := decodeOne(c.Kind, c.Input)
 		wd.started.Store(0)
 		st.account(c, &o, hs.seen)
+		if o.Millis >= 50 {
+			runtime.GC() // a slow case usually leaves a lot of garbage, which counts against the cap
+		}
 		if o.Millis >= 200 {
 			last = time.Time{} // slow cases are not repeated after a restart: checkpoint before the next case
 		}
@@ -419,9 +413,9 @@ func runChild(mode, dir string) childExit {
 		}
 		env = append(env, e)
 	}
-	// let the collector work before the cap is reached: garbage of earlier cases should not kill a child
-	env = append(env, "VERIF_DECODE_MODE="+mode, "VERIF_DECODE_DIR="+dir, fmt.Sprintf("VERIF_DECODE_MEMLIMIT_KB=%d", kb),
-		fmt.Sprintf("GOMEMLIMIT=%dKiB", goMemLimitKB(kb)))
+	// no GOMEMLIMIT: near the limit the collector would run back to back over a live heap that it
+	// cannot shrink; instead the batch child collects right after every case that was slow
+	env = append(env, "VERIF_DECODE_MODE="+mode, "VERIF_DECODE_DIR="+dir, fmt.Sprintf("VERIF_DECODE_MEMLIMIT_KB=%d", kb))
 	cmd.Env = env
 	cmd.Stdout = errf
 	cmd.Stderr = errf
